@@ -433,25 +433,39 @@ Definition parse_in_ctx (c : context) (i : invocation) : string * context :=
 
 Record pstate := mk_ps { ps_a : astate; ps_acc : acc; ps_pol : list interest; ps_ctx : context }.
 
+Definition render_line (i : invocation) (parsed : string) : string :=
+  let bytes := inv_bytes i in
+  let shown := if inv_complete i then hex bytes
+               else "#" ++ show_nat (length bytes) ++ "." ++ hex (skipn (length bytes - 4) bytes) in
+  "N:" ++ shown ++ ";" ++ show_bit (inv_complete i) ++ ";" ++ parsed.
+
+(* the three folds of the pipeline, with named step functions (Proofs/C12_pipeline.v reasons about them) *)
+Definition feed_inv_step (acc : pstate * list string) (i : invocation) : pstate * list string :=
+  let st := fst acc in
+  let pc := if inv_complete i then parse_in_ctx (ps_ctx st) i else ("-", ps_ctx st) in
+  (mk_ps (ps_a st) (ps_acc st) (ps_pol st) (snd pc), (snd acc ++ [render_line i (fst pc)])%list).
+
 Definition feed_invocations (st : pstate) (invs : list invocation) : pstate * list string :=
-  fold_left (fun '(st, out) i =>
-    let bytes := inv_bytes i in
-    let '(parsed, c') := if inv_complete i then parse_in_ctx (ps_ctx st) i else ("-", ps_ctx st) in
-    let shown := if inv_complete i then hex bytes
-                 else "#" ++ show_nat (length bytes) ++ "." ++ hex (skipn (length bytes - 4) bytes) in
-    let line := "N:" ++ shown ++ ";" ++ show_bit (inv_complete i) ++ ";" ++ parsed in
-    (mk_ps (ps_a st) (ps_acc st) (ps_pol st) c', (out ++ [line])%list)) invs (st, []).
+  fold_left feed_inv_step invs (st, []).
+
+Definition feed_call_step (acc : pstate * list string) (c : call) : pstate * list string :=
+  let st := fst acc in
+  let '(a', pol', invs) := nal_fragment (ps_acc st) (ps_pol st) (bufs c) (fin c) in
+  let r := feed_invocations (mk_ps (ps_a st) a' pol' (ps_ctx st)) invs in
+  (fst r, (snd acc ++ snd r)%list).
 
 Definition feed_calls_p (st : pstate) (cs : list call) : pstate * list string :=
-  fold_left (fun '(st, out) c =>
-    let '(a', pol', invs) := nal_fragment (ps_acc st) (ps_pol st) (bufs c) (fin c) in
-    let st1 := mk_ps (ps_a st) a' pol' (ps_ctx st) in
-    let '(st2, o2) := feed_invocations st1 invs in
-    (st2, (out ++ o2)%list)) cs (st, []).
+  fold_left feed_call_step cs (st, []).
 
 Definition pipeline_op (st : pstate) (o : aop) : pstate * list string :=
   let '(a', cs) := step (ps_a st) o in
   feed_calls_p (mk_ps a' (ps_acc st) (ps_pol st) (ps_ctx st)) cs.
+
+Definition pipeline_step (acc : pstate * list string) (o : aop) : pstate * list string :=
+  let r := pipeline_op (fst acc) o in (fst r, (snd acc ++ snd r)%list).
+
+Definition pipeline_run (ctx0 : context) (pol : list interest) (pre : list string) (ops : list aop) : pstate * list string :=
+  fold_left pipeline_step ops (mk_ps AStart acc_init pol ctx0, pre).
 
 Definition cmd_pipeline (avcc : option (list byte)) (ops : list aop) (pol : list interest) : string :=
   let '(ctx0, pre) := match avcc with
@@ -461,6 +475,4 @@ Definition cmd_pipeline (avcc : option (list byte)) (ops : list aop) (pol : list
                                   | _ => (ctx_empty, ["avccfail"])
                                   end
                       end in
-  let '(st, out) := fold_left (fun '(st, out) o => let '(st', o') := pipeline_op st o in (st', (out ++ o')%list))
-                              (ops ++ [AReset])%list (mk_ps AStart acc_init pol ctx0, pre) in
-  join " " out.
+  join " " (snd (pipeline_run ctx0 pol pre (ops ++ [AReset])%list)).
